@@ -27,6 +27,7 @@ func checkC10(c *Ctx) {
 	c.Rule("C10/R6", "tables ready: every package-level table read on the way from Scale, CommonScale or ClassOf is filled by the package initialiser, or every path to the read passes a call that fills it")
 	c.Rule("C10/R5", "unit class: ClassOf returns Binary exactly when a numerator token equals B, MB or bytes")
 
+	c.Rule("C10/R10", "the common scale of no values is defined: CommonScale never indexes or re-slices its values at a constant position without a length test")
 	c.Rule("C10/R9", "scaling and formatting leave nothing behind: no function of benchunit writes package-level state (lazily built tables behind sync.Once apart) or uses it as scratch space, and none writes through a slice it was handed (no store into, append onto or sort of a parameter slice or a reslice of it)")
 	c.Rule("C10/R8", "numerator and denominator in the unit tokenizer (same rule as C04/R3): the Binary classification looks at numerator tokens only; '*' clears and '/' sets the denominator flag, and nothing else touches it")
 	c.Rule("C10/R7", "unit class over characters, not bytes (same rule as C04/R8): no unicode predicate in benchunit is applied to a lone byte widened to a rune")
@@ -40,6 +41,7 @@ func checkC10(c *Ctx) {
 	byteRuneRule(c, p, "C10/R7", "benchunit")
 	c.Under("C04/R3", "C10/R8", func() { c04R3(c, p) })
 	c10Pure(c, p)
+	c10EmptySafe(c, p)
 }
 
 // c10TablesReady (C10/R6): every package-level table read on the way from Scale/CommonScale is either filled by the package
